@@ -285,9 +285,215 @@ type Subject struct {
 	vacated map[[2]int]bool
 	lastNB  int
 	opCache map[opKey]starlark.Value // exhaustive mode only
+	lastY   starlark.Value           // right operand of the derived operation just applied
+	refs    []aliasRef               // operands of earlier derived operations: they must never change
 }
 
-type violation struct{ msg string }
+// aliasRef: an operand of a derived operation and what it held when the operation ran.
+type aliasRef struct {
+	op   string
+	side string
+	v    starlark.Value
+	snap [][2]int
+}
+
+func isDerived(op string) bool {
+	switch op {
+	case "dictunion", "setunion", "setinter", "setdiff", "setsymdiff":
+		return true
+	}
+	return false
+}
+
+// readItems: the items of a dict / elements of a set (value 0), at most len+1 steps.
+func readItems(v starlark.Value) [][2]int {
+	out := [][2]int{}
+	n := starlark.Len(v)
+	switch v := v.(type) {
+	case *starlark.Dict:
+		it := v.Iterate()
+		defer it.Done()
+		var k starlark.Value
+		for c := 0; it.Next(&k) && c <= n; c++ {
+			x, _, _ := v.Get(k)
+			out = append(out, [2]int{k.(*HK).id, val(x)})
+		}
+	case *starlark.Set:
+		it := v.Iterate()
+		defer it.Done()
+		var k starlark.Value
+		for c := 0; it.Next(&k) && c <= n; c++ {
+			out = append(out, [2]int{k.(*HK).id, 0})
+		}
+	}
+	return out
+}
+
+func sameRaw(a, b [][2]int) bool {
+	if len(a) != len(b) {
+		return false
+	}
+	for i := range a {
+		if a[i] != b[i] {
+			return false
+		}
+	}
+	return true
+}
+
+// noteDerived: a derived operation must return a FRESH collection; remember its operands.
+func (s *Subject) noteDerived(o Op, x0 starlark.Value) {
+	if s.x == x0 {
+		panic(violation{msg: "the result of " + o.Op + " is the left operand itself, not a new collection", cls: "aliases-operand"})
+	}
+	if s.lastY != nil && s.x == s.lastY {
+		panic(violation{msg: "the result of " + o.Op + " is the right operand itself, not a new collection", cls: "aliases-operand"})
+	}
+	s.refs = append(s.refs, aliasRef{o.Op, "left", x0, readItems(x0)})
+	switch s.lastY.(type) {
+	case *starlark.Dict, *starlark.Set:
+		if s.opCache == nil || !s.isCachedOperand(s.lastY) {
+			s.refs = append(s.refs, aliasRef{o.Op, "right", s.lastY, readItems(s.lastY)})
+		}
+	}
+	if len(s.refs) > 6 {
+		s.refs = s.refs[len(s.refs)-6:]
+	}
+}
+
+func (s *Subject) isCachedOperand(v starlark.Value) bool {
+	for _, c := range s.opCache {
+		if c == v {
+			return true
+		}
+	}
+	return false
+}
+
+// checkRefs: no operand of an earlier derived operation may have changed since.
+func (s *Subject) checkRefs() (string, string) {
+	for _, r := range s.refs {
+		if now := readItems(r.v); !sameRaw(now, r.snap) {
+			return r.op, fmt.Sprintf("the %s operand of an earlier %s changed when the result was used: it held %v, now %v (result and operand share storage)", r.side, r.op, r.snap, now)
+		}
+	}
+	return "", ""
+}
+
+var (
+	sentinelA = &HK{9001, 7}
+	sentinelB = &HK{9002, 0}
+)
+
+func putKey(v starlark.Value, k *HK) {
+	switch v := v.(type) {
+	case *starlark.Dict:
+		must(v.SetKey(k, starlark.MakeInt(77)))
+	case *starlark.Set:
+		must(v.Insert(k))
+	}
+}
+func dropKey(v starlark.Value, k *HK) {
+	switch v := v.(type) {
+	case *starlark.Dict:
+		v.Delete(k)
+	case *starlark.Set:
+		v.Delete(k)
+	}
+}
+
+// aliasProbes: after the last operation of a history, every derived operation is applied to
+// the current collection with an EMPTY and a small second operand (method and operator forms);
+// the result must equal the association list, and then result, left operand and right operand
+// are mutated one after the other while the other two must stay as they were.
+func (s *Subject) checkAliasProbes(l AL) (string, string) {
+	var probes []Op
+	if s.tkind == "dict" {
+		probes = []Op{{Op: "dictunion"}, {Op: "dictunion", L: [][2]int{{4, 94}, {0, 90}}}}
+	} else {
+		for _, name := range []string{"setunion", "setinter", "setdiff", "setsymdiff"} {
+			probes = append(probes, Op{Op: name, Ks: []int{}, Form: 1}, Op{Op: name, Ks: []int{2, 0, 3}, Form: 1}, Op{Op: name, Ks: []int{}})
+		}
+	}
+	saveCache, saveRefs := s.opCache, s.refs
+	s.opCache = nil
+	defer func() { s.opCache, s.refs = saveCache, saveRefs }()
+	x0 := s.x
+	for _, p := range probes {
+		s.x = x0
+		want, _ := append(AL(nil), l...).step(p)
+		// noteDerived panics with class aliases-operand when the result IS an operand
+		if msg := func() (msg string) {
+			defer func() {
+				if e := recover(); e != nil {
+					v, ok := e.(violation)
+					if !ok {
+						panic(e)
+					}
+					msg = fmt.Sprintf("%s with operand %v%v on %v: %s (they share storage)", p.Op, p.L, p.Ks, alItems(l), v.msg)
+				}
+			}()
+			s.apply(p)
+			return ""
+		}(); msg != "" {
+			s.x = x0
+			return p.Op, msg
+		}
+		r, y := s.x, s.lastY
+		if got := readItems(r); !sameItems(got, want) {
+			return p.Op, fmt.Sprintf("%s with operand %v%v on %v gives %v, the association list gives %v", p.Op, p.L, p.Ks, alItems(l), got, alItems(want))
+		}
+		snapX, snapR := readItems(x0), readItems(r)
+		var snapY [][2]int
+		_, yIsColl := y.(*starlark.Set)
+		if _, ok := y.(*starlark.Dict); ok {
+			yIsColl = true
+		}
+		if yIsColl {
+			snapY = readItems(y)
+		}
+		describe := func(what string) string {
+			return fmt.Sprintf("%s with operand %v%v on %v: after changing %s, left operand %v -> %v, result %v -> %v (they share storage)", p.Op, p.L, p.Ks, alItems(l), what, snapX, readItems(x0), snapR, readItems(r))
+		}
+		// mutate the result: the operands must not move
+		putKey(r, sentinelA)
+		if !sameRaw(readItems(x0), snapX) || (yIsColl && !sameRaw(readItems(y), snapY)) {
+			dropKey(r, sentinelA)
+			return p.Op, describe("the result")
+		}
+		dropKey(r, sentinelA)
+		// mutate the left operand: the result must not move
+		putKey(x0, sentinelB)
+		moved := !sameRaw(readItems(r), snapR)
+		dropKey(x0, sentinelB)
+		if moved {
+			return p.Op, describe("the left operand")
+		}
+		// mutate the right operand
+		if yIsColl {
+			putKey(y, sentinelB)
+			moved := !sameRaw(readItems(r), snapR) || !sameRaw(readItems(x0), snapX)
+			dropKey(y, sentinelB)
+			if moved {
+				return p.Op, describe("the right operand")
+			}
+		}
+	}
+	s.x = x0
+	return "", ""
+}
+
+type violation struct {
+	msg string
+	cls string // finding class suffix; "" = "inconsistent"
+}
+
+func (v violation) class() string {
+	if v.cls != "" {
+		return v.cls
+	}
+	return "inconsistent"
+}
 
 func mkKeys(hashes [][2]int) map[int]*HK {
 	keys := map[int]*HK{}
@@ -415,16 +621,24 @@ func (s *Subject) pairDict(l [][2]int) *starlark.Dict {
 
 func must(err error) {
 	if err != nil {
-		panic(violation{"unexpected error: " + err.Error()})
+		panic(violation{msg: "unexpected error: " + err.Error()})
 	}
 }
 
 // apply runs one operation on the real collection.
 func (s *Subject) apply(o Op) Out {
+	x0 := s.x
+	s.lastY = nil
+	var out Out
 	if s.tkind == "dict" {
-		return s.applyDict(o)
+		out = s.applyDict(o)
+	} else {
+		out = s.applySet(o)
 	}
-	return s.applySet(o)
+	if isDerived(o.Op) {
+		s.noteDerived(o, x0)
+	}
+	return out
 }
 
 func (s *Subject) applyDict(o Op) Out {
@@ -446,10 +660,10 @@ func (s *Subject) applyDict(o Op) Out {
 			t := r.(starlark.Tuple)
 			found := bool(t[0].(starlark.Bool))
 			if found != (t[1] != starlark.None) {
-				panic(violation{"`in` and get disagree"})
+				panic(violation{msg: "`in` and get disagree"})
 			}
 			if _, err := s.call("d_index", d, s.key(o.K)); (err == nil) != found {
-				panic(violation{"`in` and d[k] disagree"})
+				panic(violation{msg: "`in` and d[k] disagree"})
 			}
 			return Out{T: "val", Found: found, V: val(t[1])}
 		}
@@ -502,7 +716,7 @@ func (s *Subject) applyDict(o Op) Out {
 		v, found, err := d.Delete(k)
 		must(err)
 		if !found {
-			panic(violation{"first key not found by Delete"})
+			panic(violation{msg: "first key not found by Delete"})
 		}
 		return Out{T: "kv", Found: true, K: k.(*HK).id, V: val(v)}
 	case "setdefault":
@@ -524,7 +738,7 @@ func (s *Subject) applyDict(o Op) Out {
 				r, err := s.call("d_ior", d, s.pairDict(o.L))
 				must(err)
 				if r != starlark.Value(d) {
-					panic(violation{"|= rebinds"})
+					panic(violation{msg: "|= rebinds"})
 				}
 			} else {
 				_, err := s.call("d_update", d, s.pairList(o.L))
@@ -541,6 +755,7 @@ func (s *Subject) applyDict(o Op) Out {
 		for _, p := range o.L {
 			must(y.SetKey(s.key(p[0]), starlark.MakeInt(p[1])))
 		}
+		s.lastY = y
 		if star {
 			r, err := s.call("d_union", d, y)
 			must(err)
@@ -663,7 +878,7 @@ func (s *Subject) applySet(o Op) Out {
 		found, err := x.Delete(k)
 		must(err)
 		if !found {
-			panic(violation{"first element not found by Delete"})
+			panic(violation{msg: "first element not found by Delete"})
 		}
 		return Out{T: "kv", Found: true, K: k.(*HK).id}
 	case "update":
@@ -702,7 +917,7 @@ func (s *Subject) applySet(o Op) Out {
 				t := r.(starlark.Tuple)
 				le, ge, lt, gt, eq, ne := bool(t[0].(starlark.Bool)), bool(t[1].(starlark.Bool)), bool(t[2].(starlark.Bool)), bool(t[3].(starlark.Bool)), bool(t[4].(starlark.Bool)), bool(t[5].(starlark.Bool))
 				if eq != (le && ge) || ne == eq || lt != (le && !ge) || gt != (ge && !le) {
-					panic(violation{fmt.Sprintf("set comparisons incoherent: <= %v >= %v < %v > %v == %v != %v", le, ge, lt, gt, eq, ne)})
+					panic(violation{msg: fmt.Sprintf("set comparisons incoherent: <= %v >= %v < %v > %v == %v != %v", le, ge, lt, gt, eq, ne)})
 				}
 				b = le
 				if o.Op == "issuperset" {
@@ -736,14 +951,18 @@ func (s *Subject) applySet(o Op) Out {
 		if star {
 			name := map[string]string{"setunion": "s_union", "setinter": "s_inter", "setdiff": "s_diff", "setsymdiff": "s_symdiff"}[o.Op]
 			if o.Form == 1 {
-				r, err = s.call(name+"_o", x, s.keySet(o.Ks))
+				y := s.keySet(o.Ks)
+				s.lastY = y
+				r, err = s.call(name+"_o", x, y)
 			} else {
 				r, err = s.call(name+"_m", x, s.keyList(o.Ks))
 			}
 		} else {
 			var it starlark.Iterator
 			if o.Form == 1 {
-				it = s.keySet(o.Ks).Iterate()
+				y := s.keySet(o.Ks)
+				s.lastY = y
+				it = y.Iterate()
 			} else {
 				it = s.keyList(o.Ks).Iterate()
 			}
@@ -778,10 +997,10 @@ func (s *Subject) boundedWalk() {
 	for it.Next(&k) {
 		c++
 		if c > n {
-			panic(violation{fmt.Sprintf("iteration yields more than len()=%d elements (order list cyclic or longer than len)", n)})
+			panic(violation{msg: fmt.Sprintf("iteration yields more than len()=%d elements (order list cyclic or longer than len)", n)})
 		}
 		if k == nil {
-			panic(violation{"iteration yields a nil key (order list runs through an empty slot)"})
+			panic(violation{msg: "iteration yields a nil key (order list runs through an empty slot)"})
 		}
 	}
 }
@@ -801,13 +1020,13 @@ func (s *Subject) observe() (int, [][2]int) {
 			iter := t[3].(*starlark.List)
 			out := make([][2]int, items.Len())
 			if keys.Len() != items.Len() || iter.Len() != items.Len() {
-				panic(violation{"items / keys / iteration lengths differ"})
+				panic(violation{msg: "items / keys / iteration lengths differ"})
 			}
 			for i := 0; i < items.Len(); i++ {
 				p := items.Index(i).(starlark.Tuple)
 				out[i] = [2]int{p[0].(*HK).id, val(p[1])}
 				if keys.Index(i) != p[0] || iter.Index(i) != p[0] {
-					panic(violation{"items / keys / iteration orders differ"})
+					panic(violation{msg: "items / keys / iteration orders differ"})
 				}
 			}
 			return n, out
@@ -816,12 +1035,12 @@ func (s *Subject) observe() (int, [][2]int) {
 		keys := d.Keys()
 		out := make([][2]int, len(items))
 		if len(keys) != len(items) {
-			panic(violation{"Items / Keys lengths differ"})
+			panic(violation{msg: "Items / Keys lengths differ"})
 		}
 		for i, p := range items {
 			out[i] = [2]int{p[0].(*HK).id, val(p[1])}
 			if keys[i] != p[0] {
-				panic(violation{"Items / Keys orders differ"})
+				panic(violation{msg: "Items / Keys orders differ"})
 			}
 		}
 		return d.Len(), out
@@ -835,13 +1054,13 @@ func (s *Subject) observe() (int, [][2]int) {
 		l := t[1].(*starlark.List)
 		l2 := t[2].(*starlark.List)
 		if l.Len() != l2.Len() {
-			panic(violation{"list(s) / iteration lengths differ"})
+			panic(violation{msg: "list(s) / iteration lengths differ"})
 		}
 		out := make([][2]int, l.Len())
 		for i := 0; i < l.Len(); i++ {
 			out[i] = [2]int{l.Index(i).(*HK).id, 0}
 			if l.Index(i) != l2.Index(i) {
-				panic(violation{"list(s) / iteration orders differ"})
+				panic(violation{msg: "list(s) / iteration orders differ"})
 			}
 		}
 		return n, out
@@ -1020,7 +1239,7 @@ func runHistory(h History, checkFrom int, probe []int, cov *Cov) (mm *Mismatch) 
 		if e := recover(); e != nil {
 			cls, msg := "panic", fmt.Sprint(e)
 			if v, ok := e.(violation); ok {
-				cls, msg = "inconsistent", v.msg
+				cls, msg = v.class(), v.msg
 			}
 			op := "init"
 			if at < len(h.Ops) {
@@ -1067,7 +1286,17 @@ func runHistory(h History, checkFrom int, probe []int, cov *Cov) (mm *Mismatch) 
 				return &Mismatch{Kind: "mismatch", Class: o.Op + cls, History: h, At: i, Got: got, Want: Obs{wo, len(l), alItems(l)}, Msg: fmt.Sprintf("lookup of key %d: found=%v value=%d", k, f, v)}
 			}
 		}
+		if op, msg := s.checkRefs(); msg != "" {
+			return &Mismatch{Kind: "mismatch", Class: op + ":aliases-operand", History: h, At: i, Got: got, Want: Obs{wo, len(l), alItems(l)}, Msg: msg}
+		}
 		if probe != nil {
+			if op, msg := s.checkAliasProbes(l); msg != "" {
+				cls := ":aliases-operand"
+				if !strings.Contains(msg, "share storage") {
+					cls = ":probe-result"
+				}
+				return &Mismatch{Kind: "mismatch", Class: op + cls, History: h, At: i, Got: got, Want: Obs{wo, len(l), alItems(l)}, Msg: "applied after the last operation: " + msg}
+			}
 			if msg := s.checkSubsetProbes(l); msg != "" {
 				return &Mismatch{Kind: "mismatch", Class: msg[:strings.Index(msg, ":")] + ":out", History: h, At: i, Got: got, Want: Obs{wo, len(l), alItems(l)}, Msg: "queried after the last operation: " + msg}
 			}
@@ -1354,8 +1583,14 @@ func exhaustive(tkind, route, hname string, L, workers int, core bool) {
 							return
 						}
 					}
-					if st.histories%4 == 0 && s.checkSubsetProbes(want) != "" {
+					if _, msg := s.checkRefs(); msg != "" {
 						bad = true
+						return
+					}
+					if st.histories%4 == 0 {
+						if _, msg := s.checkAliasProbes(want); msg != "" || s.checkSubsetProbes(want) != "" {
+							bad = true
+						}
 					}
 				}()
 				if bad {
@@ -1632,7 +1867,7 @@ func runLong(h History, r *hx.Rand) (mm *Mismatch, cov Cov, maxLive int) {
 		if e := recover(); e != nil {
 			cls, msg := "panic", fmt.Sprint(e)
 			if v, ok := e.(violation); ok {
-				cls, msg = "inconsistent", v.msg
+				cls, msg = v.class(), v.msg
 			}
 			mm = &Mismatch{Kind: "mismatch", Class: h.Ops[at].Op + ":" + cls, History: h, At: at, Msg: msg}
 		}
@@ -1665,6 +1900,11 @@ func runLong(h History, r *hx.Rand) (mm *Mismatch, cov Cov, maxLive int) {
 				_, items = s.observe()
 			}
 			return &Mismatch{Kind: "mismatch", Class: classify(o, Obs{got, n, items}, wo, l), History: h, At: i, Got: Obs{got, n, nil}, Want: Obs{wo, len(l), nil}}, s.cov, maxLive
+		}
+		if full {
+			if op, msg := s.checkRefs(); msg != "" {
+				return &Mismatch{Kind: "mismatch", Class: op + ":aliases-operand", History: h, At: i, Got: Obs{got, n, nil}, Want: Obs{wo, len(l), nil}, Msg: msg}, s.cov, maxLive
+			}
 		}
 		probes := []int{o.K, r.Intn(universe), r.Intn(universe)}
 		if len(l) > 0 {
